@@ -50,7 +50,9 @@ package logging
 
 
 //@ func NewInstance [C19]
-//@   modifies alloc()
+//@   modifies alloc(), optlog
 //@   ensures #fresh result.1 == nil ==> fresh(result.0)
 //@   ensures #nil-on-error result.1 != nil ==> result.0 == nil
-//@   loop 1 invariant -1 <= rangeindex && rangeindex < len(opts)
+//@   ensures #every-option-applied-in-order result.1 == nil ==> optlog == old(optlog) ++ applied(opts, box("*logging.Instance", result.0), len(opts))
+//@   loop 1 invariant -1 <= rangeindex && rangeindex < len(opts) && isnew(i) && i != nil
+//@   loop 1 invariant optlog == old(optlog) ++ applied(opts, box("*logging.Instance", i), rangeindex + 1)
